@@ -87,9 +87,12 @@ def one(ctx: Ctx, name: str, w0, w1, nworkers: int, sseed: int) -> dict:
         os.utime(p, (1_700_000_002, 1_700_000_002))
     files0 = {os.path.relpath(os.path.join(dp, fn), root): open(os.path.join(dp, fn)).read()
               for dp, _, fs in os.walk(root) for fn in fs}
-    par = B.run_mypy(root, os.path.join(base, "cpar"), ["-n", str(nworkers)], sched_log=True, sched_seed=sseed, scratch=base)
+    wlog = os.path.join(base, "worker-ops.log")
+    par = B.run_mypy(root, os.path.join(base, "cpar"), ["-n", str(nworkers)], sched_log=True, sched_seed=sseed, scratch=base,
+                     env_extra={"VERIF_WORKER_OPLOG": wlog})
     seq = B.run_mypy(root, os.path.join(base, "cseq"), SEQ, scratch=base)
-    rec = {"name": name, "n": nworkers, "sseed": sseed, "files0": files0, "par": par, "seq": seq}
+    rec = {"name": name, "n": nworkers, "sseed": sseed, "files0": files0, "par": par, "seq": seq,
+           "worker_ops": open(wlog).read().splitlines() if os.path.exists(wlog) else []}
     if seq.get("timeout") or seq.get("status") not in (0, 1, 2):
         raise ToolFailure(f"sequential run failed: {seq.get('status')} {seq.get('stderr', '')[-1200:]}")
     if par.get("timeout") or par.get("status") not in (0, 1, 2):
@@ -106,6 +109,13 @@ def one(ctx: Ctx, name: str, w0, w1, nworkers: int, sseed: int) -> dict:
                          for dp, _, fs in os.walk(root) for fn in fs}
         rec["par2"] = B.run_mypy(root, os.path.join(base, "cpar"), ["-n", str(nworkers)], sched_log=True, sched_seed=sseed + 1, scratch=base)
         rec["cold2"] = B.run_mypy(root, os.path.join(base, "ccold2"), SEQ, scratch=base)
+        # … and back to the first version: whatever the parallel builds recorded (dependency hashes!) must
+        # not make a later warm run — sequential or parallel — trust stale entries
+        B.materialize(w0, root, 1_700_000_006)
+        if name == "blocker":
+            pass
+        rec["back_seq"] = B.run_mypy(root, os.path.join(base, "cpar"), SEQ, scratch=base)
+        rec["back_cold"] = B.run_mypy(root, os.path.join(base, "ccold3"), SEQ, scratch=base)
     shutil.rmtree(base, ignore_errors=True)
     return rec
 
@@ -154,6 +164,37 @@ def main(ctx: Ctx) -> None:
         if not out.startswith("accepted") or not ok_ids:
             rejected.append({"program": rec["name"], "n": rec["n"], "seed": rec["sseed"], "run": key, "model": out, "ids_match": ok_ids,
                              "trace": toks, "graph": lines[outs.index(out)].split(" | ")[0] if out in outs else None})
+    # worker-side store protocol: per module  [write data, commit]? remove meta_ex, write meta, commit, write meta_ex, commit
+    proto_breaks = []
+    import re as _re
+    opre = _re.compile(r"^(\d+) (write|remove|commit_path|commit):(.*)$")
+    for rec in recs:
+        per = {}
+        for line in rec.get("worker_ops", []):
+            m = opre.match(line)
+            if not m:
+                continue
+            pid, op, name = m.groups()
+            mm = _re.match(r"^(.+?)\.(data|meta|meta_ex)\.(ff|json)$", name)
+            if op == "commit":
+                for k in per:
+                    if k[0] == pid:
+                        per[k].append("commit")
+                continue
+            if not mm:
+                continue
+            per.setdefault((pid, mm.group(1)), []).append("commit" if op == "commit_path" else f"{op}:{mm.group(2)}")
+        for (pid, mod), seq_ops in per.items():
+            if mod.split("/")[0] not in B.USER_PREFIXES:
+                continue
+            sig = " ".join(seq_ops)
+            # collapse repeated commits
+            sig = _re.sub(r"(commit )+", "commit ", sig + " ").strip()
+            ok = _re.fullmatch(r"(write:data commit )?(commit )?remove:meta_ex write:meta commit write:meta_ex commit", sig) is not None
+            ctx.dist("worker_store_sequence", "as-modelled" if ok else "other")
+            if not ok:
+                proto_breaks.append({"program": rec["name"], "n": rec["n"], "module": mod, "ops": sig})
+    ctx.coverage["worker_store_protocol_breaks"] = len(proto_breaks)
     found = False
     for rec in recs:
         if rec.get("par_crashed"):
@@ -170,6 +211,8 @@ def main(ctx: Ctx) -> None:
                      ("sequential warm rerun on the parallel build's cache vs sequential cold", rec["warm_same"], rec["seq"], rec["files0"])]
         if "par2" in rec:
             cmp_pairs.append(("parallel warm run after an edit vs sequential cold", rec["par2"], rec["cold2"], rec["files1"]))
+        if "back_seq" in rec:
+            cmp_pairs.append(("warm run after reverting the edit (cache written by two parallel builds) vs cold", rec["back_seq"], rec["back_cold"], rec["files0"]))
         for what, a, b, files in cmp_pairs:
             d = B.diff_outputs(B.canon_output(a), B.canon_output(b))
             if not d:
@@ -188,6 +231,11 @@ def main(ctx: Ctx) -> None:
         r0 = next((r for r in recs if r["par"].get("sched")), recs[0])
         ctx.sample({"program": r0["name"], "workers": r0["n"], "schedule": [l for l in r0["par"].get("sched", []) if not l.startswith("N ")][:40],
                     "model": outs[0] if outs else None})
+    if proto_breaks and not ctx.violations:
+        ctx.violation("the store operations a parallel worker performs for a module differ from the modelled protocol "
+                      "(write data, commit, remove meta_ex, write meta, commit, write meta_ex, commit — C04's Store.updateOps with the commits "
+                      "that release the shard); parallel and sequential outputs agreed on everything run",
+                      {"broken": "worker store-operation trace vs Model/Store.lean protocol (commit points)", "examples": proto_breaks[:5]}, found_input=False)
     if rejected and not ctx.violations:
         ctx.violation("a logged coordinator schedule is not a behaviour of the model (an SCC sent before its dependencies reported, sent twice, "
                       "or a busy worker reused); parallel and sequential outputs agreed on everything run",
